@@ -39,7 +39,7 @@ mod verif_witness_c20 {
             Label::CatchAll => { *names += 1; format!("{{*p{}}}", *names) }
         }).collect::<Vec<_>>().join(".")
     }
-    const LITS: [&str; 6] = ["api", "ui", "pavex", "dev", "a-b", "x1"];
+    const LITS: [&str; 7] = ["api", "UI", "pavex", "dev", "a-b", "x1", "9gag"];
 
     #[test]
     fn an_accepted_guard_matches_exactly_the_hosts_the_documentation_says() {
@@ -95,5 +95,71 @@ mod verif_witness_c20 {
             assert!(DomainGuard::new(ok.to_string()).is_ok(), "VERIF: `{ok}` must be accepted");
         }
         println!("VERIF-BOUNDED test=guards_the_documentation_forbids_are_rejected evaluations=27 bound=17 forbidden and 10 permitted guard shapes taken from the documentation and the DNS rules it cites");
+    }
+
+    /// the documented rules, written down once more: a non-empty list of non-empty labels (one trailing dot allowed); a label is
+    /// letters/digits/hyphens that neither starts nor ends with a hyphen, optionally preceded by ONE parameter `{name}` / `{*name}`
+    /// (name a Rust identifier) at the very start of the label; a catch-all only in the first label
+    fn model_valid(s: &str) -> bool {
+        if s.is_empty() { return false; }
+        let s = s.strip_suffix('.').unwrap_or(s);
+        let ident = |n: &str| { let mut c = n.chars(); matches!(c.next(), Some(f) if f.is_ascii_alphabetic()) && c.all(|x| x.is_ascii_alphanumeric()) };
+        s.split('.').enumerate().all(|(i, label)| {
+            if label.is_empty() { return false; }
+            let rest = if let Some(r) = label.strip_prefix('{') {
+                let Some(end) = r.find('}') else { return false; };
+                let (name, rest) = (&r[..end], &r[end + 1..]);
+                let name = match name.strip_prefix('*') { Some(n) => { if i != 0 { return false; } n } None => name };
+                if !ident(name) { return false; }
+                rest
+            } else { label };
+            if label.starts_with('{') && rest.is_empty() { return true; }
+            let b = rest.as_bytes();
+            !rest.is_empty() && rest.chars().all(|c| c.is_ascii_alphanumeric() || c == '-')
+                && (label.starts_with('{') || b[0].is_ascii_alphanumeric()) && b[b.len() - 1].is_ascii_alphanumeric()
+        })
+    }
+
+    #[test]
+    fn every_short_string_over_the_guard_alphabet_gets_the_documented_verdict() {
+        let thorough = std::env::var("VERIF_TIER").map(|t| t == "thorough").unwrap_or(false);
+        let max_len = if thorough { 7 } else { 5 };
+        const ALPHABET: [char; 7] = ['a', '1', '-', '.', '{', '}', '*'];
+        let mut n = 0usize;
+        let mut idx = vec![0usize; 1];
+        loop {
+            let text: String = idx.iter().map(|i| ALPHABET[*i]).collect();
+            let got = DomainGuard::new(text.clone()).is_ok();
+            assert_eq!(got, model_valid(&text), "VERIF: `{text}`: accepted = {got}, the documented rules say {}", model_valid(&text));
+            n += 1;
+            // next string in length-lexicographic order
+            let mut k = idx.len();
+            loop {
+                if k == 0 { idx = vec![0; idx.len() + 1]; break; }
+                k -= 1;
+                if idx[k] + 1 < ALPHABET.len() { idx[k] += 1; for j in k + 1..idx.len() { idx[j] = 0; } break; }
+            }
+            if idx.len() > max_len { break; }
+        }
+        println!("VERIF-BOUNDED test=every_short_string_over_the_guard_alphabet_gets_the_documented_verdict evaluations={n} bound=every string of length 1..={max_len} over the 7 symbols a 1 - . {{ }} * through the real DomainGuard::new, against a 20-line model of the documented rules");
+    }
+
+    #[test]
+    fn length_limits_and_the_dns_alphabet_are_enforced_at_their_boundaries() {
+        let a = |n: usize| "a".repeat(n);
+        let ok = |s: String| assert!(DomainGuard::new(s.clone()).is_ok(), "VERIF: `{s}` ({} characters) must be accepted", s.len());
+        let no = |s: String| assert!(DomainGuard::new(s.clone()).is_err(), "VERIF: `{s}` ({} characters) must be rejected", s.len());
+        ok(format!("{}.dev", a(63))); no(format!("{}.dev", a(64)));
+        // a parameter stands for at least one character
+        ok(format!("{{p}}{}.dev", a(62))); no(format!("{{p}}{}.dev", a(63)));
+        ok(format!("{{*p}}.{}.dev", a(63))); no(format!("{{*p}}.{}.dev", a(64)));
+        // 253 characters in all, the trailing dot not counted
+        ok(format!("{}.{}.{}.{}", a(63), a(63), a(63), a(61))); no(format!("{}.{}.{}.{}", a(63), a(63), a(63), a(62)));
+        ok(format!("{}.{}.{}.{}.", a(63), a(63), a(63), a(61))); no(format!("{{p}}.{}.{}.{}.{}", a(63), a(63), a(63), a(60)));
+        ok(format!("{{p}}.{}.{}.{}.{}", a(63), a(63), a(63), a(59)));
+        // letters, digits, hyphens — ASCII only; a label may start with a digit
+        for s in ["9gag.com", "api.1password.com", "1.1.1.1", "UI.Pavex.DEV", "a--b.dev"] { ok(s.to_string()); }
+        for s in ["ex\u{e4}mple.com", "\u{e4}.com", "a\u{e4}.com", "ex!mple.com", "ex mple.com", "a_b.com", "a\u{3b2}c.dev", "{p}\u{e4}.dev", "\u{661}.dev"] { no(s.to_string()); }
+        println!("VERIF-BOUNDED test=length_limits_and_the_dns_alphabet_are_enforced_at_their_boundaries evaluations=27 bound=13 boundary pairs for the 63-character label and 253-character total limits (plain, templated, trailing dot), 5 permitted and 9 forbidden alphabet cases");
     }
 }
